@@ -254,10 +254,11 @@ CHECKS["C12"] = {
 
 CHECKS["C15"] = {
     "engine": "E2 history explorer under AddressSanitizer",
+    "deadline": {"quick": 1500, "thorough": 6000},   # 17 operations, all 17^4 histories without de-duplication, under ASan
     "jobs": lambda tier: [job("opt_hist.cpp", "C15_s%d" % o, ["-DVPROP=15", "-DVORDER=%d" % o], shards=1, flags=["-fsanitize=address", "-fno-omit-frame-pointer"], env={"ASAN_OPTIONS": "detect_leaks=0:abort_on_error=1"}) for o in (2, 3, 4)]
                          + [job("C11.cpp", "C15_splinecopies_w%d" % w, ["-DVWORLD=%d" % w], shards=1) for w in (3, 4, 5)],   # spline copies: the spline worlds of C11 (S2 = S1, copy-ctor, copy getters, then updates of either side)
     "rule": "(spline half: the cubic/quintic/septic copy worlds of C11 -- copy construction, assignment, self-assignment, getTrajectoryCopy()/getPPolyCopy() must return distinct objects that survive an update of the source, updates of either side never show through the other) the optimizer is instantiated with STATEFUL harness maps as its default map types (the bundled default maps are empty structs, so a dangling pointer to one would never be dereferenced); heap-allocated optimizers A, B and two user maps; ops {setInitState (2 problems), setTimeMap(user/null), setSpatialMap(user/null), evaluate (creates the built-in workspace), B = new copy of A, B = A (also over a B that owns a workspace), A = A, delete A and continue with the copy, swap, mutate the copy, change the user maps' parameters}; after EVERY transition: pointer roles are as modelled (each active map is the optimizer's OWN default map or the user map, built-in workspaces are not shared), every live optimizer evaluates bit-identically to a freshly configured equivalent one, copies remain usable through their own built-in workspace, AddressSanitizer silent; canonical key = all private members (pointers by role) + workspace contents",
-    "bounds": {"quick": "optimizers: 3 orders, BFS to depth 5 (all histories of length <= 3 without de-duplication); spline copies: 3 orders, BFS to depth 6", "thorough": "optimizers: 3 orders, BFS to depth 8 or fixpoint (all histories of length <= 4 without de-duplication); spline copies: BFS to depth 20 or fixpoint"},
+    "bounds": {"quick": "optimizers: 3 orders, BFS to depth 5 (all histories of length <= 3 without de-duplication); spline copies: 3 orders, BFS to depth 6", "thorough": "optimizers: 3 orders, BFS to depth 7 or fixpoint (all histories of length <= 4 without de-duplication); spline copies: BFS to depth 20 or fixpoint"},
     "thresholds": {"all comparisons": "bitwise"},
     "assumptions": ASSUME_OPT + ["g++ AddressSanitizer as the oracle for use-after-free of a destroyed source optimizer", "pointer roles are read through -fno-access-control"],
     "technique": TECH_E2 + "; oracle = fresh-object differential + pointer-role model + AddressSanitizer",
